@@ -843,8 +843,8 @@ def cert_rows(ck: Ck, side: dict, eside: dict) -> None:
             ck.hist('row_certificate_depth', depth)
             ck.seen(('rowcert', lab, seed))
     vals: list[str] | None = []
-    for lo in range(0, len(exprs), 55):
-        part = ck.coq_eval(IMPORTS, exprs[lo:lo + 55], name='rowcert', preamble='Import ListNotations.\n', timeout=900)
+    for lo in range(0, len(exprs), 80):
+        part = ck.coq_eval(IMPORTS, exprs[lo:lo + 80], name='rowcert', preamble='Import ListNotations.\n', timeout=900)
         if part is None:
             vals = None
             break
@@ -1576,6 +1576,39 @@ def search_instancing(ck: Ck) -> None:
 
 
 # ------------------------------------------------------------------------------------------------ main
+def proof_side_batched(ck: Ck, props_file: str, obs: dict[str, str]) -> dict[str, bool]:
+    """The fixed proof-side work of a run in ONE coqc process instead of three: every instance obligation as
+    `Theorem inst_k : <expr> = true. Proof. vm_compute. reflexivity. Qed.` and ONE `Print Assumptions` of the tuple of all
+    theorems of the Props file (the assumptions of a tuple are the union of its components' assumptions: "Closed under the
+    global context" for the tuple = closed for each; 75 separate walks of the same dependency closure cost 3x as much).
+    Records exactly the obligations ck.theorems + ck.instance_obligations record.  Anything else than "process succeeded
+    and the tuple is closed" (an obligation that is false, an axiom somewhere, a parse surprise) falls back to those two
+    harness functions, which attribute the failure per theorem / per obligation."""
+    import re as _re
+    txt = (hc.ROCQ / props_file).read_text()
+    names = _re.findall(r"^\s*(?:Theorem|Lemma|Corollary)\s+([A-Za-z0-9_\']+)", txt, _re.M)
+    mod = 'SV.' + props_file[:-2].replace('/', '.')
+    onames = list(obs)
+    body = ''.join(f'Require Import {i}.\n' for i in IMPORTS) + f'Require Import {mod}.\n'
+    for k, n in enumerate(onames):
+        body += f'Theorem inst_{k} : ({obs[n]}) = true.\nProof. vm_compute. reflexivity. Qed.\n'
+    body += 'Definition c09_every_theorem := (' + ',\n  '.join('@' + n for n in names) + ').\n'
+    body += 'Print Assumptions c09_every_theorem.\n'
+    rc, out = ck.coq_scratch(body, 'proof_side', timeout=900) if names and onames else (1, '')
+    closed = [l for l in out.splitlines() if l.startswith('Closed under the global context')]
+    if rc == 0 and len(closed) == 1 and 'Axioms:' not in out:
+        for n in names:
+            ck.axioms[n] = []
+            ck.obligation(f'theorem:{n}', True, 'Qed; axioms: none (closed under the global context)')
+        for n in onames:
+            ck.obligation(f'instance:{n}', True, f'{obs[n]} = true')
+        ck.extra['proof_side'] = 'one coqc process: %d instance obligations (Qed) + Print Assumptions of the tuple of %d theorems' % (len(onames), len(names))
+        return {n: True for n in onames}
+    ck.extra['proof_side'] = 'batched run did not succeed (rc=%d): per-theorem / per-obligation run' % rc
+    ck.theorems(props_file)
+    return ck.instance_obligations(IMPORTS, obs)
+
+
 def run(ck: Ck) -> None:
     from translate import c09_copy
     _merge_known()
@@ -1639,8 +1672,6 @@ def run(ck: Ck) -> None:
         ck.sample({'census_Side(field, kind, how, source expression)': side.get('census', {}).get('Side')})
     if built:
         lap('translate+build')
-        ck.theorems('Props/C09.v')
-        lap('print_assumptions')
         obs = {}
         for cls in side.get('classes', []):
             obs[f'copy_covers_fields:{cls}'] = f'copy_covers_fields census_{cls}'
@@ -1681,7 +1712,7 @@ def run(ck: Ck) -> None:
         obs['census_labels_of_a_class_agree'] = 'labels_agree all_census class_of_label'
         # premise of c09_all_classes_complete_and_independent (the whole property for every copy method of the table)
         obs['all_classes_complete_and_independent'] = 'all_fresh && all_sources_match && all_export_ok'
-        res = ck.instance_obligations(IMPORTS, obs)
+        res = proof_side_batched(ck, 'Props/C09.v', obs)
         failing = [k for k, v in res.items() if not v]
         if failing:
             ck.tie_broken.append('copy census obligations failed: ' + ', '.join(failing))
@@ -1706,7 +1737,7 @@ def run(ck: Ck) -> None:
             if detail:
                 ck.extra['census_sources_of_offending_classes'] = {
                     c: side.get('sources', {}).get(c) for c in side.get('classes', []) if not res.get(f'copy_sources_match:{c}', True)}
-        lap('instance_obligations')
+        lap('theorems+instance_obligations')
         phase(ck, 'cert_cases', cert_cases)
         phase(ck, 'cert_rows', cert_rows, side, eside)
         lap('certificates')
@@ -1768,6 +1799,7 @@ def run(ck: Ck) -> None:
         ck.explain('translate:CopyCensus_gen')
     if any_key('shared-mutable:', 'mutation-visible:'):
         ck.explain('certificate:export_ok')
+        ck.explain('correspondence:census_vs_runtime')      # the census says "copied", the real copy shares: that input
     if any_key('shared-mutable:', 'mutation-visible:', 'copy-incomplete:'):
         ck.explain('instance:all_classes_complete_and_independent')
         ck.explain('certificate:census_rows_hold')
